@@ -98,6 +98,11 @@ CHECKS["C18"] = ("model_checking",
  "Module trees main -> x -> y -> z (depth 3, diamonds, a module reached by include and by import, one alias used twice, auto-included init modules): every sequence of <= 2 (thorough <= 3) distinct main links from 8 x 10 link lists of x x 4 of y x definition profiles (same name at several arities, redefinition, forward references, unqualified/qualified/builtin-shadowing calls, $d and $d::d) x 4 init modules; 27 probes per tree are each compiled and run and must be defined with the model's value or fail with the model's error. File-system resolution: the 4 candidate files of a module (d1/n.jq, d1/n/base.jq, d2/n.jq, d2/n/base.jq; n = x and p/x; .json for data) x all 16 presence subsets x 4 -L configurations x 6 `search` entries in main (also as -f file elsewhere) x nested modules living in 2 directories with 7 `search` entries. modulemeta for 4 x 5 x 6 modules; the default search list (~/.jq file or directory, $ORIGIN/../lib/gojq, $ORIGIN/../lib) with a copy of the real binary.",
  "The model reads include as textual insertion and import as isolation plus alias prefix; three deviations of the pinned tree from it are recorded as known findings and matched only when the model with that deviation switched on predicts the whole tree.",
  "DESIGN.md §4 C18")
+CHECKS["C19"] = ("exploration",
+ "exhaustive enumeration of programs x ambient configurations (driver process re-run under each), of option configurations and compile histories, and of callback calls x calling contexts, each compared with a reference (identical output across configurations; queue, map and binding models; the jq definition with the same relation)",
+ "(a) every builtin name/arity applied to up to 4 argument tuples plus ~70 programs naming the environment, inputs, modules and command-only names, on 8 inputs, compiled without options in a driver process run under 7 ambient configurations (environment, working directory full of modules, ~/.jq, stdin, time zone): output identical line by line, no planted marker ever shown. (b) WithVariables: all lists of 0..4 names x 0..5 values; WithInputIter: 6 streams x 18 programs x 1..2 runs against a queue model; WithEnvironLoader: 6 pair lists x 9 programs; WithFunction/WithIterFunction: all 496 arity ranges x arities 0..31, invalid ranges, 12 x 12 x 4 overlapping registrations, option values reused over 9^3 compile histories; 25 programs x all 2-run histories over 15 inputs on one Code versus a fresh Code. (c) 16 Go callbacks versus jq definitions with the same relation: ~200 calls x the 43 one-hole contexts of the C01 towers nested to depth 2 x 4 inputs.",
+ "The driver process is the vcheck binary itself, linking the tree under test; now and the time-zone dependent date functions are exempt as the property says.",
+ "DESIGN.md §4 C19")
 NOT_YET = "check not built yet (work in progress in this session); see DESIGN.md for the planned exploration"
 
 def commits():
